@@ -1059,7 +1059,7 @@ def check_boundary(case, ctx, b):
 def plan(tier):
     if tier == 'quick':
         return [{'n': 20, 'boundaries': []} for i in range(16)]
-    return [{'n': 3000, 'boundaries': [j for j in range(len(BOUNDARIES)) if j % 16 == i]} for i in range(16)]
+    return [{'n': 1000, 'boundaries': [j for j in range(len(BOUNDARIES)) if j % 16 == i]} for i in range(16)]
 
 
 def run_shard(ctx, spec):
@@ -1084,7 +1084,7 @@ _GATES = [('k:function', 0.2), ('k:callback', 0.1), ('k:record', 0.25), ('k:unio
 def health(agg, tier):
     docs = max(1, agg['labels'].get('documents', 0))
     probs = []
-    if docs < (400 if tier == 'quick' else 50000):
+    if docs < (400 if tier == 'quick' else 15000):
         probs.append('only %d documents checked' % docs)
     for lab, frac in _GATES:
         if agg['labels'].get(lab, 0) < frac * docs:
